@@ -61,15 +61,19 @@ Definition atomobs := (pystr * Z * Z)%type.      (* element, formal charge, tota
 Inductive case :=
 | CEmbed (nodes : list Z)                (* node list seen by networkx_to_rdkit (iteration order) *)
          (nrd : nat)                     (* atoms of the RDKit molecule after AddHs (transcript) *)
+         (canon : list nat)              (* atom i -> the FIRST atom with exactly the same coordinates (RDKit embeds
+                                            disconnected fragments independently: identical fragments, single atoms
+                                            may coincide, so atoms are identified up to equal coordinates) *)
          (exc : nat)
-         (obs : list (Z * nat))          (* node -> RDKit atom whose position it carries *)
+         (obs : list (Z * nat))          (* node -> first RDKit atom whose position it carries *)
          (bonds : list (Z * Z * bool))   (* edges of order > 0; flag: one end is a hydrogen *)
          (pos : list (Z * fvec3))        (* positions stored on the nodes *)
 | CRound (has_conf : bool) (nodes : list Z)
          (exc : nat)
          (orig_atoms : list (Z * atomobs)) (orig_edges : list (Z * Z * Z))     (* keys = node keys; order in half units *)
          (out_atoms : list (Z * atomobs)) (out_edges : list (Z * Z * Z))       (* keys = RDKit indices *)
-         (out_pos : list (Z * nat))      (* output node -> RDKit atom whose conformer position it carries *)
+         (canon : list nat)              (* as in CEmbed *)
+         (out_pos : list (Z * nat))      (* output node -> first RDKit atom whose conformer position it carries *)
 | CFwd (beads : list (Z * list (Z * float)))   (* coarse node -> weights dict of its `graph` *)
        (pos : list (Z * fvec3))                (* atom positions *)
        (t : fvec3)                             (* translation *)
@@ -77,6 +81,14 @@ Inductive case :=
        (out out_t : list (Z * fvec3))          (* beads from pos / from pos + t *)
        (own : Z) (out_p : list (Z * fvec3))    (* beads after moving every atom outside bead [own] *)
 | CSkip.                                       (* input not judged (third-party failure before the code under test) *)
+
+(** atoms up to equal coordinates *)
+Definition cn (canon : list nat) (i : nat) : nat := nth i canon i.
+Definition cmap (canon : list nat) (m : list (Z * nat)) : list (Z * nat) := map (fun ki => (fst ki, cn canon (snd ki))) m.
+(** every node carries the coordinates of its own atom *)
+Definition own_ok (canon : list nat) (nodes : list Z) (obs : list (Z * nat)) : bool :=
+  forallb (fun k => match lookup_last k obs, own_atom nodes k with
+                    | Some j, Some i => Nat.eqb j (cn canon i) | _, _ => false end) nodes.
 
 (** ---------- correspondence *)
 Definition translate (t : fvec3) (pos : list (Z * fvec3)) : list (Z * fvec3) :=
@@ -86,15 +98,15 @@ Definition fwd_model (beads : list (Z * list (Z * float))) (pos : list (Z * fvec
 
 Definition corr_ok (c : case) : bool :=
   match c with
-  | CEmbed nodes nrd exc obs _ _ =>
+  | CEmbed nodes nrd canon exc obs _ _ =>
       match embed_model embed_write_mode nodes nrd with
-      | Ok m => Nat.eqb exc 0 && map_eqb m obs
+      | Ok m => Nat.eqb exc 0 && map_eqb (cmap canon m) obs
       | Err EKey => Nat.eqb exc 1
       | Err _ => false
       end
-  | CRound has_conf nodes exc _ _ out_atoms _ out_pos =>
+  | CRound has_conf nodes exc _ _ out_atoms _ canon out_pos =>
       match r2n_positions r2n_pos_arg_bound has_conf (length nodes) with
-      | Ok m => Nat.eqb exc 0 && map_eqb m out_pos
+      | Ok m => Nat.eqb exc 0 && map_eqb (cmap canon m) out_pos
       | Err EName => Nat.eqb exc 1
       | Err _ => false
       end
@@ -140,17 +152,18 @@ Definition norm_avg (pos : list (Z * fvec3)) (ws : list (Z * float)) : res fvec3
 
 Definition prop_fail (c : case) : nat :=
   match c with
-  | CEmbed nodes nrd exc obs bonds pos =>
+  | CEmbed nodes nrd canon exc obs bonds pos =>
       if negb (Nat.eqb exc 0) then 1%nat
       else if negb (forallb (fun k => is_ok (alookup k pos)) nodes) then 2%nat
-      else if negb (on_own_atoms_b nodes obs) then 3%nat
+      else if negb (own_ok canon nodes obs) then 3%nat
       else if negb (forallb (bond_ok pos) bonds) then 4%nat
       else 0%nat
-  | CRound has_conf nodes exc oa oe ra re out_pos =>
+  | CRound has_conf nodes exc oa oe ra re canon out_pos =>
       if negb (Nat.eqb exc 0) then (if has_conf then 6%nat else 8%nat)
       else if negb (chem_preserved nodes oa oe ra re) then 5%nat
       else if has_conf && negb (forallb (fun ka => match lookup_last (fst ka) out_pos with
-                                                   | Some i => Z.eqb (Z.of_nat i) (fst ka) | None => false end) ra)
+                                                   | Some i => Nat.eqb i (cn canon (Z.to_nat (fst ka))) && (0 <=? fst ka)
+                                                   | None => false end) ra)
            then 7%nat
       else 0%nat
   | CFwd beads pos t exc out out_t own out_p =>
@@ -171,8 +184,8 @@ Definition cls_weight_not_one (beads : list (Z * list (Z * float))) : bool :=
   existsb (fun b => existsb (fun aw => negb (PrimFloat.eqb (snd aw) 1%float)) (snd b)) beads.
 Definition case_class (c : case) : nat :=
   match c with
-  | CEmbed nodes _ _ _ _ _ => if cls_index_not_key nodes then 1%nat else 0%nat
-  | CRound has_conf _ _ _ _ _ _ _ => if cls_has_conformer has_conf then 2%nat else 0%nat
+  | CEmbed nodes _ _ _ _ _ _ => if cls_index_not_key nodes then 1%nat else 0%nat
+  | CRound has_conf _ _ _ _ _ _ _ _ => if cls_has_conformer has_conf then 2%nat else 0%nat
   | CFwd beads _ _ _ _ _ _ _ => if cls_weight_not_one beads then 3%nat else 0%nat
   | CSkip => 0%nat
   end.
